@@ -262,15 +262,16 @@ def dyadic(rng, shape, lo=-8, hi=8, den=32.0):
 
 
 def random_affine_cell(cell, rng):
-    """Random non-degenerate affine image of the reference cell (dyadic vertex coordinates)."""
+    """Random non-degenerate affine image of the reference cell (dyadic vertex coordinates);
+    one in four has a negative Jacobian determinant (as unordered simplices have in real meshes)."""
     td = TDIM[cell]
     g = ref_geometry(cell)
     while True:
         B = np.eye(td) + dyadic(rng, (td, td), -10, 10, 32.0)
-        if rng.integers(0, 2):
-            B = B[:, ::-1].copy() if td > 1 and rng.integers(0, 4) == 0 else B
         if abs(np.linalg.det(B)) > 0.3:
             break
+    if td > 1 and rng.integers(0, 4) == 0:
+        B = B[:, [1, 0, *range(2, td)]]
     b = dyadic(rng, (td,), -16, 16, 16.0)
     return PhysCell(cell, g @ B.T + b)
 
@@ -283,29 +284,23 @@ def neighbour_cell(cp, ep, cell_m, em, tau, rng):
     fvm = ref_topology(cell_m)[td - 1][em]
     P = cp.V[fvp]
     g = ref_geometry(cell_m)
-    nfix = td  # affinely independent facet vertices
-    src = [g[fvm[k]] for k in range(nfix)]
-    dst = [P[tau[k]] for k in range(nfix)]
+    src = [g[fvm[k]] for k in range(td)]  # td affinely independent facet vertices
+    dst = [P[tau[k]] for k in range(td)]
     off = [i for i in range(g.shape[0]) if i not in fvm][0]
     fc = P.mean(axis=0)
     opp = fc - (0.75 + 0.25 * rng.integers(0, 3)) * (cp.centroid() - fc)
     if td > 1:
         opp = opp + dyadic(rng, (), -4, 4, 32.0) * (P[1] - P[0])
-    # the image of the off-facet reference vertex: move from the facet centroid image of that vertex's
-    # projection; any point strictly on the other side gives a valid affine neighbour
     src.append(g[off])
-    # image such that the reference facet centroid direction maps across the facet
-    gfc = g[fvm].mean(axis=0)
-    dst.append(opp + (np.array(dst[:nfix]).mean(axis=0) - fc) * 0 + 0 * gfc.sum())
+    dst.append(opp)
     S = np.hstack([np.array(src), np.ones((td + 1, 1))])
     M = np.linalg.solve(S, np.array(dst))
     V = np.hstack([g, np.ones((g.shape[0], 1))]) @ M
     cm = PhysCell(cell_m, V)
-    # the off-facet vertex was sent to `opp` only approximately on the other side for non-simplices
-    # (its projection differs from the centroid); verify separation
     n = cp.outward_normal(ep)
     assert np.dot(cm.centroid() - fc, n) > 1e-6, "neighbour on the wrong side"
     assert abs(np.linalg.det(cm.B)) > 1e-3
+    assert np.allclose(np.sort(cm.V[fvm], axis=0), np.sort(P, axis=0), atol=1e-12), "facets do not coincide"
     return cm
 
 
@@ -609,7 +604,7 @@ def c02_cases(tier):
                 f, g = Coefficient(V), Coefficient(W)
                 n = FacetNormal(m)
                 form = (f("-") * g("+") * dS + CellVolume(m)("-") * f("+") * dS
-                        + FacetArea(m) * n("-")[0] * g("-") * dS)
+                        + FacetArea(m)("+") * n("-")[0] * g("-") * dS)
                 fn = lambda P: np.array(P.f(0, "-") * P.f(1, "+") + P.vol("-") * P.f(0, "+")  # noqa: E731
                                         + P.area() * P.n("-")[0] * P.f(1, "-"))
                 return dict(form=form, coefs=[e, e1], fn=fn)
@@ -831,7 +826,7 @@ def check_tables(chk, d, records, what, perm_only=False):
     for rec in records:
         rows, arr = rec["rows"], rec["array"]
         r0 = rows[0]
-        if r0["avg"] is not None and r0["avg"] not in (None, False, ""):
+        if r0["avg"] in ("cell", "facet"):
             continue
         itype = r0["integral_type"]
         cell = r0["cell"]
@@ -843,16 +838,9 @@ def check_tables(chk, d, records, what, perm_only=False):
                          {"cell": cell, "shape": list(arr.shape), "calls": len(rows)})
             continue
         base = rec["rule_points"]
-        ftypes = {facet_type(cell, f) for f in range(num_facets(cell))} if itype != "vertex" else {"point"}
-        if len(ftypes) != 1:
-            # prism: the same reference points are mapped to every facet whatever its type; only the rows of
-            # the facets of the kernel's own type are read. Compare those facets only.
-            pdim = base.shape[1]
-            keep = [f for f in range(num_facets(cell)) if TDIM[facet_type(cell, f)] == pdim
-                    and (facet_type(cell, f) == ("triangle" if _looks_simplex(base) else "quadrilateral"))]
-        else:
-            keep = None
-        ft = "point" if itype == "vertex" else (facet_type(cell, keep[0]) if keep else next(iter(ftypes)))
+        # (prism: the same reference points are mapped to every facet whatever its type, by the code and by
+        # the model alike, so all entities are compared)
+        ft = "point" if itype == "vertex" else facet_type(cell, 0)
         if len(rows) > 1:
             model_rows = [tuple(r) for r in d.ask(f"(rows {ft})")]
             if len(model_rows) != len(rows):
@@ -880,8 +868,6 @@ def check_tables(chk, d, records, what, perm_only=False):
             # (2) entity axis: entity e of the table == tabulation at model-mapped points
             nent = arr.shape[1]
             for e in range(nent):
-                if keep is not None and e not in keep:
-                    continue
                 if itype == "vertex":
                     X = _model_points(d, f"(mapintegral {cell} vertex {e} (()))")
                 elif td == 1:
@@ -896,16 +882,11 @@ def check_tables(chk, d, records, what, perm_only=False):
                 err = float(np.abs(tab - got).max())
                 scale = max(1.0, float(np.abs(tab).max()))
                 nchecked += 1
-                chk.case(kind="table_entity", key=f"{cell}:{itype}:{el.family_name if hasattr(el, 'family_name') else ''}:{r0['derivs']}:{N}:{e}")
+                chk.case(kind="table_entity", key=f"{cell}:{itype}:{repr(el)[:48]}:{r0['derivs']}:{r0['fc']}:{N}:{e}")
                 if err > 1e-12 * scale:
                     chk.disagree(f"{what}: entity axis / permutation row of a real table",
                                  {"cell": cell, "integral_type": itype, "row": N, "entity": e, "err": err})
     return nchecked
-
-
-def _looks_simplex(pts):
-    """Reference facet points of a prism kernel: triangle points satisfy x+y<=1."""
-    return bool(np.all(pts.sum(axis=1) <= 1 + 1e-12)) and pts.shape[1] == 2
 
 
 def corr_tables(chk, d, forms_by_name):
@@ -994,10 +975,10 @@ def corr_layout(chk, d, rng):
                     if abs(call(mod, integral, 1, np.zeros(0), x2, (0, 1), (0, Nm))[0] - base) > 1e-9:
                         sens.append(idx)
                 nodes = 3
-                model = sorted(int(d.ask(f"(xindex {nodes} {r} {nd} {c})")) for nd in range(nodes) for c in range(3))
-                chk.case(kind="layout_x", key=mt[1])
                 # the third component is padding (gdim = 2): never read
-                if not (set(sens) <= set(model) and len(sens) >= 2 * nodes - 2):
+                model = sorted(int(d.ask(f"(xindex {nodes} {r} {nd} {c})")) for nd in range(nodes) for c in range(2))
+                chk.case(kind="layout_x", key=mt[1])
+                if sens != model:
                     chk.disagree("macro layout of coordinate_dofs", {"restriction": mt[1], "impl_sensitive": sens, "model_block": model})
 
 
